@@ -617,3 +617,129 @@ c.exit_hook = rw_exit
 c.raises = {"BaseException": []}
 c.cancellable = True
 c.assumptions.append("T-aio Queue: get() returns the items in the order they were put (FIFO), each once; the unit quantifies over an arbitrary head item")
+
+
+# ---- Server.close with ANY number of live sessions
+from pyvc.objseq import ObjSeq  # noqa: E402
+from pyvc.values import Model  # noqa: E402
+
+
+class TaskBag(Model):
+    """the local list `tasks` of Server.close inside/after its loop: the items it had before the loop plus (ghost) the
+    dispatcher of every connection the loop has consumed - each append is checked to be exactly that"""
+
+    model_name = "taskbag"
+
+    def __init__(self, initial):
+        super().__init__()
+        self.initial = list(initial)
+        self.appended = []
+
+    def getattr(self, it, name):
+        if name == "append":
+
+            def ap(i, a, k):
+                self.appended.append(a[0])
+                i.ctx.event("bag.append", a[0])
+
+            return Builtin("tasks.append", ap)
+        raise Unsupported("list." + name)
+
+    def iterate(self, it):
+        return list(self.initial) + [self]
+
+    def m___len__(self, it):
+        n = fresh("int", "len_tasks")
+        it.ctx.assume(n.t >= len(self.initial))
+        return n
+
+
+def setup_close_any(u):
+    it = u.it
+    sess = Session(u, mode="SEQ", ports=False)
+    srv = sess.server
+    listener = ListenerModel(fresh("int", "port"), tag="control-listener")
+    srv.fields["server"] = listener
+    ccls = u.cls(SERVER, "Server").__class__("connection-view", [], {})
+
+    def make(it_, idx):
+        o = Obj(ccls, tag="connection[i]")
+        t = TaskModel(None, tag="dispatcher[i]")
+        t.conn_index = idx
+        o.fields["_dispatcher"] = t
+        return o
+
+    table = ObjSeq("sessions", make)
+    # the local list that collects what the final asyncio.wait(...) awaits: its name is read from the real function
+    import ast as _ast
+
+    fn, _ = u.cls(SERVER, "Server").lookup("close")
+    waited = [n.args[0].id for n in _ast.walk(fn.node) if isinstance(n, _ast.Call) and _ast.unparse(n.func) == "asyncio.wait" and n.args and isinstance(n.args[0], _ast.Name)]
+    if len(waited) != 1:
+        raise Unsupported("Server.close: expected one `asyncio.wait(<local list>)`; the any-number loop contract does not apply to another shape")
+    LIST = waited[0]
+
+    class Table(Model):
+        model_name = "connections"
+
+        def getattr(self, i, name):
+            if name == "values":
+                return Builtin("connections.values", lambda i2, a, k: table)
+            raise Unsupported("connections." + name)
+
+        def m___len__(self, i):
+            return SV("int", table.n)
+
+    srv.fields["connections"] = Table()
+    bag = {}
+    head = {"ev": 0}
+
+    def tasks_shape(i):
+        if "b" not in bag:
+            bag["b"] = TaskBag(bag.get("initial", []))
+        return bag["b"]
+
+    def havoc(i, env):
+        head["ev"] = len(i.ctx.events)
+
+    def ghost(i, env, phase):
+        if phase == "init":
+            try:
+                bag["initial"] = list(env.lookup(LIST))
+            except KeyError:
+                # this unit's loop contract is written for "a local list `tasks` collects what is awaited at the end";
+                # another shape of the function is outside it (undecided here; the 0..2-session unit is shape-independent)
+                raise Unsupported("Server.close: no local list `tasks` at the loop: the any-number loop contract does not apply")
+            return
+        if phase != "step":
+            return
+        ev = i.ctx.events[head["ev"]:]
+        taken = [e for e in ev if e[0] == "seq.next" and e[1] is table]
+        if len(taken) != 1:
+            raise Unsupported("Server.close: the loop did not take exactly one session per iteration")
+        d = taken[0][2].fields["_dispatcher"]
+        cancels = [e for e in ev if e[0] == "task.cancel"]
+        apps = [e for e in ev if e[0] == "bag.append"]
+        ok = len(cancels) == 1 and cancels[0][1] is d and len(apps) == 1 and apps[0][1] is d
+        i.ctx.check("Server.close/iteration:the-session's-dispatcher-is-cancelled-and-queued-for-the-final-wait", z3.BoolVal(bool(ok)), info={"props": ["C12"]})
+
+    spec = LoopSpec(invariants=[], shapes={LIST: tasks_shape}, havoc=havoc, ghost=ghost)
+    it.hooks.setdefault("loops", {})[(SERVER, "Server.close", 0)] = spec
+    return it.getattr_(srv, "close"), [], {}, {"self": srv, "listener": listener, "bag": bag, "table": table}
+
+
+c = contract(SERVER, "Server.close", props=["C12"], name="Server.close#any-number-of-sessions")
+c.setup = setup_close_any
+c.raises_("CancelledError")
+c.assumptions.append("the connection table holds any number of sessions (a list of unknown length); per-iteration obligation + induction: every session's dispatcher is cancelled and is in the list handed to the final asyncio.wait")
+
+
+def close_any_post(S):
+    it = S.it
+    bag = S.vars["bag"].get("b")
+    awaited = it.ctx.ghost.get("awaited_tasks", [])
+    wc = [t for t in awaited if getattr(getattr(t, "coro", None), "name", "") == "wait_closed"]
+    return bool(S.vars["listener"].closed and bag is not None and any(t is bag for t in awaited) and len(wc) == 1)
+
+
+c.ensures(close_any_post, "closes-the-listener-and-waits-for-wait_closed-and-for-the-whole-list-of-dispatchers")
